@@ -4,7 +4,10 @@
 //     package-level variable with a constant initialiser (LinkBufferCap, ...), as Lean definitions;
 //   - <facts>           : JSON with the same constants plus, per function, a fingerprint of its body
 //     (sha256 of the comment-free, gofmt-normalised source) and the ordered list of synchronisation
-//     operations in it (sync/atomic calls, channel ops, go statements, calls to locker methods).
+//     operations in it (sync/atomic calls, channel ops, go statements, calls to locker methods);
+//   - <out>/Fd.lean     : every call site in package netpoll that closes a descriptor or an object wrapping one
+//     (syscall.Close, unix.Close, (*os.File).Close, Close of a package-net object such as net.Listener /
+//     net.Conn, (*netFD).Close), as (file, function, kind, call expression) in source order (property C15).
 package main
 
 import (
@@ -32,10 +35,82 @@ type FuncFact struct {
 	File string   `json:"file"`
 }
 
+type CloseSite struct {
+	File string `json:"file"`
+	Func string `json:"func"`
+	Kind string `json:"kind"`
+	Call string `json:"call"`
+	Line int    `json:"line"`
+	pos  token.Pos
+}
+
 type Facts struct {
-	Consts map[string]string      `json:"consts"`
-	Funcs  map[string]FuncFact    `json:"funcs"`
-	Shard  map[string][][2]string `json:"shard_steps,omitempty"` // C17, see shard.go
+	Consts     map[string]string      `json:"consts"`
+	Funcs      map[string]FuncFact    `json:"funcs"`
+	Shard      map[string][][2]string `json:"shard_steps,omitempty"` // C17, see shard.go
+	CloseSites []CloseSite            `json:"closeSites"`
+}
+
+// closeKind classifies a call expression; "" = not a descriptor-closing call.
+func closeKind(info *types.Info, x *ast.CallExpr) string {
+	sel, ok := x.Fun.(*ast.SelectorExpr)
+	if !ok || sel.Sel.Name != "Close" {
+		return ""
+	}
+	if id, ok := sel.X.(*ast.Ident); ok {
+		if pn, ok := info.Uses[id].(*types.PkgName); ok {
+			switch pn.Imported().Path() {
+			case "syscall":
+				return "syscall"
+			case "golang.org/x/sys/unix":
+				return "unix"
+			}
+			return ""
+		}
+	}
+	s, ok := info.Selections[sel]
+	if !ok {
+		return ""
+	}
+	fn, ok := s.Obj().(*types.Func)
+	if !ok || fn.Pkg() == nil {
+		return ""
+	}
+	sig, _ := fn.Type().(*types.Signature)
+	recv := ""
+	if sig != nil && sig.Recv() != nil {
+		t := sig.Recv().Type()
+		if p, ok := t.(*types.Pointer); ok {
+			t = p.Elem()
+		}
+		if n, ok := t.(*types.Named); ok {
+			recv = n.Obj().Name()
+		}
+	}
+	switch fn.Pkg().Path() {
+	case "os":
+		if recv == "File" {
+			return "osfile"
+		}
+	case "net":
+		switch recv {
+		case "Listener":
+			return "netlistener"
+		case "Conn":
+			return "netconn"
+		default:
+			return "net"
+		}
+	case "github.com/cloudwego/netpoll":
+		if recv == "netFD" {
+			return "netfd"
+		}
+	}
+	return ""
+}
+
+func fdLeanStr(s string) string {
+	return "\"" + strings.ReplaceAll(strings.ReplaceAll(s, "\\", "\\\\"), "\"", "\\\"") + "\""
 }
 
 func leanName(s string) string {
@@ -193,10 +268,31 @@ func main() {
 						Sync: syncOps(p.Fset, p.TypesInfo, d.Body),
 						File: filepath.Base(p.Fset.Position(d.Pos()).Filename),
 					}
+					if p.Name == "netpoll" {
+						ast.Inspect(d.Body, func(n ast.Node) bool {
+							if x, ok := n.(*ast.CallExpr); ok {
+								if k := closeKind(p.TypesInfo, x); k != "" {
+									pos := p.Fset.Position(x.Pos())
+									facts.CloseSites = append(facts.CloseSites, CloseSite{
+										File: filepath.Base(pos.Filename), Func: name, Kind: k,
+										Call: exprStr(p.Fset, x), Line: pos.Line, pos: x.Pos(),
+									})
+								}
+							}
+							return true
+						})
+					}
 				}
 			}
 		}
 	}
+	sort.SliceStable(facts.CloseSites, func(i, j int) bool {
+		a, b := facts.CloseSites[i], facts.CloseSites[j]
+		if a.File != b.File {
+			return a.File < b.File
+		}
+		return a.pos < b.pos
+	})
 	if *out != "" {
 		// C19 access table: union of the non-race and the race build of the packages
 		var rpkgs []*packages.Package
@@ -257,6 +353,21 @@ func main() {
 			os.Exit(2)
 		}
 		if err := os.WriteFile(filepath.Join(*out, "Poll.lean"), []byte(pollLean), 0o644); err != nil {
+			fmt.Fprintln(os.Stderr, err)
+			os.Exit(2)
+		}
+		var f strings.Builder
+		f.WriteString("/- GENERATED by /verif/tools/extract from /repo on every check run.  Do not edit. -/\nnamespace Netpoll.Gen\n\n")
+		f.WriteString("/-- every call in package netpoll (linux build) that closes a descriptor or an object wrapping one:\n    (file, function, kind, call expression), in source order -/\n")
+		f.WriteString("def closeSites : List (String × String × String × String) := [")
+		for i, c := range facts.CloseSites {
+			if i > 0 {
+				f.WriteString(",")
+			}
+			fmt.Fprintf(&f, "\n  (%s, %s, %s, %s)", fdLeanStr(c.File), fdLeanStr(c.Func), fdLeanStr(c.Kind), fdLeanStr(c.Call))
+		}
+		f.WriteString("]\n\nend Netpoll.Gen\n")
+		if err := os.WriteFile(filepath.Join(*out, "Fd.lean"), []byte(f.String()), 0o644); err != nil {
 			fmt.Fprintln(os.Stderr, err)
 			os.Exit(2)
 		}
